@@ -1252,9 +1252,72 @@ func genC15Fixpoint(r *rng, tier string, add func(g *G)) {
 	add(g)
 }
 
+// directed: churn on a key set whose index has OVERFLOW chains (70-100 keys colliding in 14 hash bits:
+// a chain of 3-4 buckets that no split takes apart, next to ordinary keys): every round deletes keys
+// and puts them again (a delete leaves a hole in whichever bucket held the key; the put of a key
+// that is not in the index goes to the first free slot). The number of keys is steady, so the index
+// files must be too: overflow.pix after any round is no longer than after the warm-up rounds.
+func genC15ChainChurn(r *rng, tier string, add func(g *G)) {
+	n := scale(tier, 3, 16)
+	for i := 0; i < n; i++ {
+		g := newG(r.fork(), fmt.Sprintf("C15/chain-churn/%d", i))
+		g.dumpEvery = 0
+		g.params(4096, 512, 0.3, false)
+		g.open()
+		coll := g.collidingKeys(70+g.r.intn(31), 14, "c")
+		g.keys = append(append([][]byte{}, coll...), g.randomKeys(20)...)
+		for _, k := range g.keys {
+			g.put(k, g.r.bytes(4+g.r.intn(8)))
+		}
+		g.indexShape()
+		g.dump()
+		size := func() int {
+			b, _ := g.im.FS.ReadFile(g.im.Dir + "/overflow.pix")
+			return len(b)
+		}
+		rounds := scale(tier, 12, 30)
+		warm := 0
+		for c := 0; c < rounds; c++ {
+			// delete a third of the colliding keys (from all over the chain), then put them again
+			var gone [][]byte
+			for _, k := range coll {
+				if g.r.chance(33) {
+					g.del(k)
+					gone = append(gone, k)
+				}
+			}
+			for _, k := range gone {
+				g.put(k, g.r.bytes(4+g.r.intn(8)))
+			}
+			if c%4 == 3 {
+				g.compact()
+				g.checkDirectory()
+			}
+			if c%6 == 5 {
+				g.close()
+				g.open()
+				g.c.Steps[len(g.c.Steps)-1].Expect = []string{"open ok recovered=0"}
+			}
+			g.do("dumpphys")
+			if c == 2 {
+				warm = size()
+			}
+			if c > 2 && size() > warm {
+				g.do(fmt.Sprintf("echo overflow.pix-grew-from-%d-to-%d-bytes-in-round-%d-with-a-steady-key-set", warm, size(), c), "echo ok")
+				break
+			}
+		}
+		g.c.tag("delete_and_reput_rounds_on_overflow_chains")
+		g.checkAll()
+		g.dump()
+		add(g)
+	}
+}
+
 func genC15(r *rng, tier string, add func(g *G)) {
 	genC15Fixpoint(r, tier, add)
 	genC15Steady(r, tier, add)
+	genC15ChainChurn(r, tier, add)
 	n := scale(tier, 50, 800)
 	for i := 0; i < n; i++ {
 		g := newG(r.fork(), fmt.Sprintf("C15/%d", i))
